@@ -148,3 +148,103 @@ Definition n_unique_samples_rows (s : screen) : nat := length (sort_uniq Z.compa
 Definition n_unique_treatments_rows (s : screen) : nat :=
   length (sort_uniq Z.compare
             (filter (fun i => negb (i =? CONTROL_SENTINEL_VALUE)) (concat (s_tids s)))).
+
+(* ==== vocabulary of the source-translation link for C12 / C03 ====
+   (harness/src_functions.py C12_*, generated file Generated/SrcReveal.v, proofs Proofs/C12Source.v)
+   A Python Screen object is a [screen].  Its array attributes are the COLUMNS of its rows, one entry per
+   experiment; a 2-d array carries its second dimension (so that an empty screen still has an arity).
+   Observation arrays are float64 bit patterns (Model/Screen.v).  The numpy calls below have their list
+   meaning for arrays of equal length, which is the invariant of the arrays of one Screen object (its
+   constructor refuses anything else: "All arrays must have the same number of experiments"); on lists of
+   different lengths - where numpy raises - zip_rows / np_or / select stop at the shorter one. *)
+Definition names2d := (nat * list (list name))%type.      (* treatment_names: (shape[1], rows) *)
+Definition doses2d := (nat * list (list Z))%type.         (* treatment_doses: dose keys *)
+Definition tmap_t := (tmapping * bool)%type.              (* a treatment_mapping argument with the flag "its id array has an integer dtype" *)
+Definition smap_t := (nmapping * bool)%type.
+
+(* attribute reads screen.<name> *)
+Definition col_tnames (s : screen) : names2d := (s_arity s, map (fun r => map fst (r_treats r)) (s_rows s)).
+Definition col_tdoses (s : screen) : doses2d := (s_arity s, map (fun r => map snd (r_treats r)) (s_rows s)).
+Definition col_samples (s : screen) : list name := map r_sample (s_rows s).
+Definition col_plates (s : screen) : list name := map r_plate (s_rows s).
+Definition col_obs (s : screen) : list Z := map r_obs (s_rows s).
+Definition col_mask (s : screen) : list bool := map r_mask (s_rows s).
+Definition screen_size (s : screen) : Z := Z.of_nat (length (s_rows s)).      (* screen.size *)
+(* screen.treatment_mapping / screen.sample_mapping of an existing Screen: integer ids *)
+Definition attr_tmap (s : screen) : tmap_t := (s_tmap s, true).
+Definition attr_smap (s : screen) : smap_t := (s_smap s, true).
+
+(* numpy, one call each *)
+Definition np_isin (a l : list Z) : list bool := map (fun x => mem_Z x l) a.            (* np.isin(a, l) *)
+Definition np_eq_zero (x : list Z) : list bool := map obs_is_zero x.                    (* x == 0, x a float array *)
+Definition np_isnan (x : list Z) : list bool := map obs_is_nan x.                       (* np.isnan(x) *)
+Definition np_all (b : list bool) : bool := forallb (fun x => x) b.                     (* np.all(b); True for the empty array *)
+Definition np_any (b : list bool) : bool := existsb (fun x => x) b.                     (* np.any(b) *)
+Definition np_or (a b : list bool) : list bool := map (fun p => fst p || snd p) (combine a b).   (* a | b *)
+Definition np_full {A} (x : A) (n : Z) : list A := repeat x (Z.to_nat n).               (* np.ones(n) / np.zeros(n) *)
+
+(* Screen(treatment_names=, treatment_doses=, sample_names=, plate_names=, observations=, observation_mask=,
+          control_treatment_name=, treatment_mapping=, sample_mapping=): row i is made of the i-th entries of the arrays;
+   an argument that is not passed is None (control_treatment_name: the default "") *)
+Fixpoint zip_rows (tn : list (list name)) (td : list (list Z)) (sn pn : list name) (ob : list Z) (mk : list bool)
+  : list row :=
+  match tn, td, sn, pn, ob, mk with
+  | a :: tn', b :: td', c :: sn', d :: pn', e :: ob', f :: mk' =>
+      {| r_sample := c; r_plate := d; r_treats := combine a b; r_obs := e; r_mask := f |} :: zip_rows tn' td' sn' pn' ob' mk'
+  | _, _, _, _, _, _ => []
+  end.
+
+Definition py_screen (tnames : names2d) (tdoses : doses2d) (samples plates : list name)
+    (obs : option (list Z)) (mask : option (list bool)) (ctrl : option name)
+    (tmap : option tmap_t) (smap : option smap_t) : result screen :=
+  let n := length samples in
+  let ob := match obs with Some o => o | None => repeat 0 n end in            (* overwritten by mk_screen when not given *)
+  let mk := match mask with Some m => m | None => repeat false n end in
+  mk_screen (zip_rows (snd tnames) (snd tdoses) samples plates ob mk) (fst tnames)
+            (match ctrl with Some c => c | None => [] end) tmap smap
+            (match obs with Some _ => true | None => false end) (match mask with Some _ => true | None => false end).
+
+(* ---- Screen.set_observed: numpy boolean-mask assignment on the two arrays it writes ---- *)
+(* a[m] = vs, one value per selected position, consumed from the left *)
+Fixpoint mask_put {A} (m : list bool) (vs : list A) (a : list A) : list A :=
+  match m, a with
+  | b :: m', x :: a' =>
+      if b then match vs with
+                | v :: vs' => v :: mask_put m' vs' a'
+                | [] => x :: mask_put m' [] a'
+                end
+      else x :: mask_put m' vs a'
+  | _, _ => a
+  end.
+(* a[m] = v, v an array: IndexError (tag 10) when the mask's length is not the array's; v must have as many values as m
+   selects, or exactly one (broadcast); otherwise ValueError (tag 11) *)
+Definition np_mask_assign {A} (a : list A) (m : list bool) (v : list A) : result (list A) :=
+  if negb (Nat.eqb (length m) (length a)) then Err 10
+  else
+    let k := count_true m in
+    if Nat.eqb (length v) k then Ok (mask_put m v a)
+    else match v with
+         | [x] => Ok (mask_put m (repeat x k) a)
+         | _ => Err 11
+         end.
+(* a[m] = x, x a scalar *)
+Definition np_mask_fill {A} (a : list A) (m : list bool) (x : A) : result (list A) :=
+  if negb (Nat.eqb (length m) (length a)) then Err 10
+  else Ok (mask_put m (repeat x (count_true m)) a).
+
+(* the screen whose _observations / _observation_mask arrays are [ob] / [mk], everything else as in s *)
+Definition with_cols (o : Z) (b : bool) (r : row) : row :=
+  {| r_sample := r_sample r; r_plate := r_plate r; r_treats := r_treats r; r_obs := o; r_mask := b |}.
+Fixpoint put_cols (rows : list row) (ob : list Z) (mk : list bool) : list row :=
+  match rows, ob, mk with
+  | r :: rows', o :: ob', b :: mk' => with_cols o b r :: put_cols rows' ob' mk'
+  | _, _, _ => []
+  end.
+Definition set_cols (s : screen) (ob : list Z) (mk : list bool) : screen :=
+  {| s_rows := put_cols (s_rows s) ob mk; s_arity := s_arity s; s_ctrl := s_ctrl s;
+     s_tmap := s_tmap s; s_smap := s_smap s; s_pmap := s_pmap s;
+     s_tids := s_tids s; s_sids := s_sids s; s_pids := s_pids s |}.
+
+(* ---- Screen.__init__, the two statement runs that decide the observation mask ---- *)
+Definition np_eq_name (a : list name) (x : name) : list bool := map (fun y => name_eqb y x) a.      (* a == x, a a string array *)
+Definition np_eq_bool (a : list bool) (b : bool) : list bool := map (fun y => Bool.eqb y b) a.      (* a == b, a a bool array *)
